@@ -496,11 +496,26 @@ func (V *Verifier) candidatesAll(sig *types.Signature) []*ssa.Function {
 }
 
 // reachableFrom: repo functions reachable from the given entry keys.
+// reachableFromUntrusted is reachableFrom that does not look behind a
+// function whose contract is `trusted` (its body is somebody else's
+// business: grammar.Parse recovers the engine's panics, which is verified on
+// (*parser).parse).
+func (V *Verifier) reachableFromUntrusted(entries ...string) []string {
+	return V.reachable(true, entries...)
+}
+
 func (V *Verifier) reachableFrom(entries ...string) []string {
+	return V.reachable(false, entries...)
+}
+
+func (V *Verifier) reachable(stopAtTrusted bool, entries ...string) []string {
 	seen := map[string]bool{}
 	var walk func(k string)
 	walk = func(k string) {
 		if seen[k] || V.P.Funcs[k] == nil {
+			return
+		}
+		if c := V.CS.ByKey[k]; stopAtTrusted && c != nil && c.Trusted {
 			return
 		}
 		seen[k] = true
